@@ -238,6 +238,24 @@ def staged(rng):
     return s
 
 
+def late_drop(rng):
+    """a leader finishes and is polled, but its (finished) future is dropped only later, after a new leader for
+    the same key has started and a waiter has joined it"""
+    k0 = rng.randrange(3)
+    s = [4, 5, 0, k0, 1, 0, 0, 4, 0, rng.choice([0, 1]), 1, 0, 0]      # leader 0: call, poll, complete, poll (done)
+    s += [5, 1, k0]                                                     # new leader 1 on the same key
+    if rng.random() < 0.7:
+        s += [1, 1, 0]
+    s += [5, 2, k0]                                                     # waiter 2 joins leader 1
+    if rng.random() < 0.5:
+        s += [1, 2, 0]
+    s += [2, 0, 0]                                                      # late drop of the finished leader 0
+    if rng.random() < 0.5:
+        s += [5, 3, k0, 1, 3, 0]                                        # another request for the key
+    s += [1, 2, 0, 4, 1, rng.choice([0, 1]), 1, 1, 0, 1, 2, 0, 1, 3, 0]
+    return s
+
+
 def exhaustive(depth, n=3):
     alpha = [(5, 0, 0), (5, 1, 0), (5, 2, 0), (5, 2, 1), (1, 0, 0), (1, 1, 0), (1, 2, 0),
              (2, 0, 0), (2, 1, 0), (4, 0, 0), (4, 0, 2), (4, 2, 1)]
@@ -254,10 +272,12 @@ def generate(rng, tier):
     if tier == "quick":
         out += [random_script(rng) for _ in range(1500)]
         out += [staged(rng) for _ in range(700)]
+        out += [late_drop(rng) for _ in range(100)]
         out += list(exhaustive(2))
     else:
         out += [random_script(rng, 6, 70) for _ in range(30000)]
         out += [staged(rng) for _ in range(10000)]
+        out += [late_drop(rng) for _ in range(2000)]
         out += list(exhaustive(5))
     return out
 
